@@ -889,9 +889,114 @@ impl<K, V> HashMap<K, V> {
   }
 }
 
+// (by-value methods: not reachable through Deref)
+impl<K, V> HashMap<K, V> {
+  pub fn into_values(self) -> std::collections::hash_map::IntoValues<K, V> {
+    self.inner.into_values()
+  }
+  pub fn into_keys(self) -> std::collections::hash_map::IntoKeys<K, V> {
+    self.inner.into_keys()
+  }
+}
+
 impl<K, V> Default for HashMap<K, V> {
   fn default() -> Self {
     HashMap::new()
+  }
+}
+
+impl<K: Eq + std::hash::Hash, V: PartialEq> PartialEq for HashMap<K, V> {
+  fn eq(&self, o: &Self) -> bool {
+    self.inner == o.inner
+  }
+}
+
+impl<K: Eq + std::hash::Hash, V> Extend<(K, V)> for HashMap<K, V> {
+  fn extend<I: IntoIterator<Item = (K, V)>>(&mut self, it: I) {
+    self.inner.extend(it)
+  }
+}
+
+/// HashSet with the same deterministic, per-execution seeded hasher
+pub struct HashSet<T> {
+  inner: std::collections::HashSet<T, DetState>,
+}
+
+impl<T> HashSet<T> {
+  pub fn new() -> HashSet<T> {
+    HashSet { inner: std::collections::HashSet::with_hasher(DetState::new()) }
+  }
+  pub fn with_capacity(n: usize) -> HashSet<T> {
+    HashSet { inner: std::collections::HashSet::with_capacity_and_hasher(n, DetState::new()) }
+  }
+}
+
+impl<T> Default for HashSet<T> {
+  fn default() -> Self {
+    HashSet::new()
+  }
+}
+
+impl<T: Clone> Clone for HashSet<T> {
+  fn clone(&self) -> Self {
+    HashSet { inner: self.inner.clone() }
+  }
+}
+
+impl<T: std::fmt::Debug> std::fmt::Debug for HashSet<T> {
+  fn fmt(&self, f: &mut std::fmt::Formatter<'_>) -> std::fmt::Result {
+    self.inner.fmt(f)
+  }
+}
+
+impl<T> Deref for HashSet<T> {
+  type Target = std::collections::HashSet<T, DetState>;
+  fn deref(&self) -> &Self::Target {
+    &self.inner
+  }
+}
+
+impl<T> DerefMut for HashSet<T> {
+  fn deref_mut(&mut self) -> &mut Self::Target {
+    &mut self.inner
+  }
+}
+
+impl<T: Eq + std::hash::Hash> FromIterator<T> for HashSet<T> {
+  fn from_iter<I: IntoIterator<Item = T>>(it: I) -> Self {
+    let mut m = HashSet::new();
+    for x in it {
+      m.inner.insert(x);
+    }
+    m
+  }
+}
+
+impl<T: Eq + std::hash::Hash> Extend<T> for HashSet<T> {
+  fn extend<I: IntoIterator<Item = T>>(&mut self, it: I) {
+    self.inner.extend(it)
+  }
+}
+
+impl<T: Eq + std::hash::Hash> PartialEq for HashSet<T> {
+  fn eq(&self, o: &Self) -> bool {
+    self.inner == o.inner
+  }
+}
+
+impl<T> IntoIterator for HashSet<T> {
+  type Item = T;
+  type IntoIter = std::collections::hash_set::IntoIter<T>;
+  fn into_iter(self) -> Self::IntoIter {
+    self.inner.into_iter()
+  }
+}
+
+impl<'a, T> IntoIterator for &'a HashSet<T> {
+  type Item = &'a T;
+  type IntoIter = std::collections::hash_set::Iter<'a, T>;
+  fn into_iter(self) -> Self::IntoIter {
+    self.inner.iter()
   }
 }
 
